@@ -103,6 +103,15 @@ class OracleVariant(Variant):
 # ---- free symbols -----------------------------------------------------------
 class FreeVarsVariant(OracleVariant):
     walker, tag = "pysmt.oracles.FreeVarsOracle", "fv"
+    prop_ids = ("C12", "C14")
+
+    def compare(self, ex, r, want):
+        goals = OracleVariant.compare(self, ex, r, want)
+        # the memoised answer is handed to every later caller: it must not be a mutable object
+        immutable = isinstance(r, frozenset) or (isinstance(r, SetVal) and r.frozen) or \
+            (is_zset(r) and r.get_id() not in ex.ghost.get("mutable_zsets", set()))
+        goals.append(("C14:memoised-answer-is-immutable", z3.BoolVal(bool(immutable))))
+        return goals
 
     def walker_obj(self, env):
         return env.fields["_fvo"]
